@@ -4,6 +4,9 @@ open Zutil
 let st = ref rinit
 let avail = ref ([] : z list)
 let closed = ref false
+let kmax = ref 12
+let kb = ref (kempty (zi 12))
+let kvs = ref 0
 let do_drain () =
   let calls = ref 0 in
   let stop = ref false in
@@ -20,8 +23,28 @@ let () =
   iter_lines (fun line ->
     match words line with
     | "---" :: _ -> print_endline line
-    | "new" :: _ -> st := rinit; avail := []; closed := false
+    | "new" :: rest ->
+        st := rinit; avail := []; closed := false;
+        (match rest with
+         | [kk] -> kmax := int_of_string (List.nth (String.split_on_char '=' kk) 1)
+         | _ -> kmax := 12);
+        kb := kempty (zi !kmax); kvs := 0
     | ["chunk"; hex] -> avail := !avail @ bytes_of_hex hex; do_drain ()
     | ["close"] -> closed := true; do_drain ()
+    | ["kset"; vs; o; n; sl] ->
+        let v s = int_of_string (List.nth (String.split_on_char '=' s) 1) in
+        let sls = List.filter (fun x -> x <> "") (String.split_on_char ',' (List.nth (String.split_on_char '=' sl) 1)) in
+        let given = List.map (fun x -> zi (int_of_string x)) sls in
+        let pad = List.init (max 0 (!kmax - List.length given)) (fun _ -> Z0) in
+        kvs := v vs;
+        kb := { maxk = zi !kmax; oldest = zi (v o); newest = zi (v n); slots = given @ pad }
+    | ["kchk"; n] ->
+        (match check_seq !kb (zi !kvs) (zi (int_of_string n)) with
+         | None -> print_endline "kc FUEL"
+         | Some (b, kb') ->
+             kb := kb';
+             Printf.printf "kc %d old=%d new=%d slots=%s\n" (if b then 1 else 0) (iz kb'.oldest) (iz kb'.newest)
+               (String.concat "" (List.map (fun x -> string_of_int (iz x) ^ ",") kb'.slots)))
+    | ["kfull"] -> Printf.printf "kf %d\n" (if is_full !kb then 1 else 0)
     | [] -> ()
     | _ -> print_endline ("? " ^ line))
